@@ -64,9 +64,10 @@ func GenHistory(r *common.Rand, name string, cfg *fedlab.Config, u *fedlab.Unive
 
 // BaseObs: what does not depend on the option set.
 type BaseObs struct {
-	Fresh   *Obs // a fresh default-option engine executing only this request
-	Mono    *fedlab.ExecResult
-	MonoErr string
+	Fresh     *Obs // a fresh default-option engine executing only this request
+	Mono      *fedlab.ExecResult
+	MonoErr   string
+	Collision bool // the engine's own normalisation gave two variables one name (Prepare)
 }
 
 // RunObs: request i of the history on the one engine built with the option set, and the same
@@ -111,6 +112,9 @@ func Observe(h *History, exec *fedlab.ExecServer, sets []OptionSet) (*HistoryObs
 			return nil, err
 		}
 		b := &BaseObs{Fresh: f}
+		if pp, perr := Prepare(monoLab.Schema, rq.Sp); perr == nil && pp != nil {
+			b.Collision = pp.Collision
+		}
 		m, merr := monoLab.Mono(rq.Sp.Text, rq.Sp.OpName, []byte(rq.Sp.Variables))
 		if merr != nil {
 			b.MonoErr = merr.Error()
@@ -217,7 +221,7 @@ func (ho *HistoryObs) Sexp(h *History, useed uint64, sets []OptionSet) string {
 			mono = "(some " + orNull(b.Mono.Data).Sexp() + " " + common.I(b.Mono.NErrors) + ")"
 		}
 		sb.WriteString(" (rq " + common.I(rq.Group) + " " + string(rq.Sp.Style) + " " + common.QS(rq.Sp.Text) + " " + common.QS(rq.Sp.Variables) + " " +
-			RespTree(b.Fresh).Sexp() + " " + mono + " " + digests(b.Fresh.Pairs) + " " + common.I(len(b.Fresh.Reqs)) + ")")
+			RespTree(b.Fresh).Sexp() + " " + mono + " " + digests(b.Fresh.Pairs) + " " + common.I(len(b.Fresh.Reqs)) + " " + common.B(b.Collision) + ")")
 	}
 	sb.WriteString(")")
 	for _, o := range sets {
